@@ -120,6 +120,10 @@ theorem out_unique {w : Out Bytes} {a b : Bytes} (h1 : w = .ok a) (h2 : w = .ok 
 
 /-! ### the shape of the one-layer step -/
 
+theorem splitRaw_single (x : AnyObj) (hx : isRaw x = false) : (splitRaw [x]).2 = [] := by
+  cases x <;> first | rfl | cases hx
+
+
 /-- `append_padding_` of a Dot1Q is object state that is not on the wire (KF-C04-L2-4); parsed objects never have it -/
 def NoApp (o : AnyObj) : Prop := ∀ q, o = .l2 (.dot1q q) → q.appendPadding = false
 
